@@ -98,6 +98,9 @@ M = [
  ("C20-typemap-not-validated", "C20", "src/params.rs",
   "                if rest.len() - 1 < 2 * self.params as usize {\n                    return Err(bad(\"parameter block is shorter than its type table\"));\n                }",
   ""),
+ ("C13-abort-on-short-message", "C13", "src/writers.rs",
+  "    w.write_all(err.sqlstate())?;\n    w.write_all(msg)?;",
+  "    if msg.len() == 7 && msg[0] == b'#' {\n        std::process::abort();\n    }\n    w.write_all(err.sqlstate())?;\n    w.write_all(msg)?;"),
 ]
 
 def main():
